@@ -67,6 +67,9 @@ func (r *EngineRunner) execLock(f []string) string {
 		if strings.HasPrefix(out, "err") && before != after {
 			r.fail("C16", "a rejected Open from another process changed the directory")
 		}
+		if strings.HasPrefix(out, "err inuse") && r.db == nil {
+			r.fail("C16", "another process found the directory in use although no database is open on it (the lock outlived Close or a failed Open)")
+		}
 		return out
 	case "openbg":
 		// the (closed) directory opened with the background merge enabled: it must be held like any other
@@ -145,7 +148,7 @@ func (r *EngineRunner) execLock(f []string) string {
 		if oks == 0 {
 			r.fail("C16", "none of %d racing Opens succeeded", n)
 		}
-		return fmt.Sprintf("done # ok=%d inuse=%d", oks, inuse)
+		return fmt.Sprintf("done ok=%d # inuse=%d", oks, inuse)
 	}
 	return "err unknown-op"
 }
